@@ -136,6 +136,23 @@ def check(ck):
                 cases.append((scheme, "h:80", path, query, True))
     for scheme in ("ftp", "", "ws", "unix+ftp", "unix+", "httpx", "unix+https+x", "file"):
         cases.append((scheme, "h", "/p", "", False))
+    if ck.tier == "thorough":
+        # larger universe: more paths (dots, trailing slash, encoded characters, a path that looks like a query), more queries
+        # (empty value, repeated '?', '#'-free fragments are not part of urlparse().query), netlocs with port / credentials,
+        # and more rejected schemes (case variants are normalised by urlparse itself and are not generated)
+        paths = ("", "/", "//", "/a", "/a/", "/a/b.c", "/%7Euser/x%20y", "/a;p=1", "/tmp/jsonrpc.sock", "/..", "/a/../b")
+        queries = ("", "a", "a=", "a=1&a=2", "q=%3F%26", "x=1?y=2", "=", "&")
+        for scheme in ("http", "https", "unix+http"):
+            for netloc in ("h", "h:8080", "u:p@h:1", "[::1]:80", ""):
+                for path in paths:
+                    for query in queries:
+                        if netloc == "h:80" and path in ("", "/", "/a/b", "/tmp/s.sock") and query in ("", "x=1&y=%202"):
+                            continue
+                        if netloc != "h" and (path not in ("", "/a") or query not in ("", "a=1&a=2")):
+                            continue
+                        cases.append((scheme, netloc, path, query, True))
+        for scheme in ("gopher", "htt", "https+unix", "unix", "unix+unix+http", "http+unix", "smtp", "unix+httpss", "s3", "data", "unix+file"):
+            cases.append((scheme, "h", "/p", "q=1", False))
     n4 = 0
     for (scheme, netloc, path, query, accepted) in cases:
         def urlparse_stub(*a, **k):
